@@ -16,7 +16,14 @@ func init() {
 			Search{Sc: Eligibility{M: 2, MaxVals: 3, Set: "A", Epoch: 1}, Depth: 3 + d},
 			Search{Sc: ProvValSet{M: 2, MaxVals: 3}, Depth: 4 + d},
 		}
+		us = append(us, FaultGrid(),
+			Search{Sc: VSCRelay{Variant: "late", Epoch: 1, Delay: 1, Two: true}, Depth: 4 + d},
+			Search{Sc: Slash{Variant: "full"}, Depth: 3 + d},
+			Search{Sc: Stop{Variant: "base"}, Depth: 4 + d},
+			Search{Sc: Rewards{Fraction: "0.75", Period: 2}, Depth: 4 + d},
+			Search{Sc: Infraction{Variant: "base"}, Depth: 3 + d},
+		)
 		us = append(us, c19Extra(tier)...)
-		return CheckSpec{Level: "fault_enumeration", Rule: "part (i): every block event of every listed scenario asserts that BeginBlock/EndBlock return no error, do not panic and return validator updates CometBFT would accept; part (ii): fault enumeration, see units; distinct_nontrivial = distinct states / fault points", Assumptions: commonAssumptions, Budget: budget, Units: us}
+		return CheckSpec{MustSee: []string{"launch-rolled-back", "allocation-rolled-back", "send-failure-stops-only-that-consumer", "fault:DeleteConsumerChain/channel.ChanCloseInit", "fault:LaunchConsumer/client.CreateClient"}, Level: "fault_enumeration", Rule: "part (i): every block event of every listed scenario asserts that BeginBlock/EndBlock return no error, do not panic and return validator updates CometBFT would accept; part (ii): fault enumeration, see units; distinct_nontrivial = distinct states / fault points", Assumptions: commonAssumptions, Budget: budget, Units: us}
 	})
 }
